@@ -170,7 +170,7 @@ func fieldStoresOf(c *core.Ctx, n *types.Named) []fieldStore {
 						if !cc.IsInvoke() && cc.StaticCallee() != nil && cc.StaticCallee().Signature.Recv() != nil && len(cc.Args) > 0 && cc.Args[0] == addr {
 							isRecv = true
 						}
-						if !isRecv {
+						if !isRecv || !isSyncPrimitive(st.Field(fa.Field).Type()) {
 							out = append(out, fieldStore{fn, ref, fname, "addr-escape"})
 						}
 					default:
@@ -182,6 +182,19 @@ func fieldStoresOf(c *core.Ctx, n *types.Named) []fieldStore {
 		})
 	}
 	return out
+}
+
+// isSyncPrimitive: mutexes and similar carry no data; method calls on them are not state writes.
+func isSyncPrimitive(t types.Type) bool {
+	n, ok := t.(*types.Named)
+	if !ok || n.Obj().Pkg() == nil || n.Obj().Pkg().Path() != "sync" {
+		return false
+	}
+	switch n.Obj().Name() {
+	case "Mutex", "RWMutex", "WaitGroup", "Once":
+		return true
+	}
+	return false
 }
 
 func c07TxFrame(c *core.Ctx) {
